@@ -52,10 +52,12 @@ func refVerify(key, locator, token string, ttl time.Duration, now time.Time) str
 	if err != nil {
 		return "invalid"
 	}
-	if now.Unix() > e {
+	// "before the expiry time": the Go implementation is judged to the nanosecond (the API server's Ruby
+	// code compares whole seconds and still accepts during the expiry second; that second is C07's business
+	// only for the Go side)
+	if exp := time.Unix(e, 0); now.After(exp) {
 		return "expired"
-	}
-	if now.Unix() == e {
+	} else if now.Equal(exp) {
 		return "unsure"
 	}
 	if sig != refSignature(key, hash, token, exp, ttl) {
@@ -85,11 +87,11 @@ func scenC07(w *vsim.World, spec *vsim.Spec) {
 		kind int // 0 as-is 1 wrong token 2 perturb one char 3 extra hints around 4 signature removed 5 no token 6 uppercase signature 7 signed by the reference with an expiry across the whole 8-hex-digit range
 		pos  int
 		chr  int
-		adv  int // advance the clock first: 0 none, 1 to expiry-2s, 2 to expiry+2s, 3 small
+		adv  int // advance the clock first: 0 none, 1 to expiry-2s, 2 to expiry+2s, 3 small, 4 to a point inside the expiry second
 	}
 	var plan []probe
 	for len(plan) < 12 && (len(plan) == 0 || w.Choose("more", 6) != 0) {
-		plan = append(plan, probe{kind: w.Choose("probe-kind", 8), pos: w.Choose("pos", 60), chr: w.Choose("chr", 16), adv: w.Choose("advance", 4)})
+		plan = append(plan, probe{kind: w.Choose("probe-kind", 8), pos: w.Choose("pos", 60), chr: w.Choose("chr", 16), adv: w.Choose("advance", 5)})
 	}
 	// concurrent signers and verifiers: the signing code is lock-free; with statement-level
 	// preemption (rule R9 in blob_signature.go) its unsynchronised sections interleave
@@ -201,6 +203,11 @@ func scenC07(w *vsim.World, spec *vsim.Spec) {
 				}
 			case 3:
 				time.Sleep(time.Duration(1+p.pos) * 100 * time.Millisecond)
+			case 4: // inside the expiry second: after the expiry instant, before the next whole second
+				if dlt := time.Unix(exp, 0).Add(time.Duration(1+p.pos%9) * 100 * time.Millisecond).Sub(time.Now()); dlt > 0 {
+					time.Sleep(dlt)
+					w.Probe("clock-inside-the-expiry-second")
+				}
 			}
 			loc, tok := signed, token
 			switch p.kind {
